@@ -63,6 +63,11 @@ class ScriptError(Exception):
     pass
 
 
+class ScriptBaseError(BaseException):
+    """what a script's `r` raises when the case says exc=B: an exception outside the `Exception` hierarchy
+    (the statement says "or raising" without restricting the class; seeded change C11-2)"""
+
+
 class DeferredFailed(Exception):
     pass
 
@@ -96,7 +101,7 @@ class _ScriptIter:
             return self.pos
         if it == "r":
             self.dead = True
-            raise ScriptError(self.idx)
+            raise self.env["exc"](self.idx)
         return self.env["getd"](int(it[1:]))
 
 
@@ -112,7 +117,7 @@ def _canon(result, iterator):
             return "TS"
         if result.check(task.SchedulerStopped):
             return "SS"
-        if result.check(ScriptError):
+        if result.check(ScriptError, ScriptBaseError):
             return "E"
         if result.check(DeferredFailed):
             return "F%d" % result.value.args[0]
@@ -132,7 +137,7 @@ def run_impl(c):
             ds[j] = defer.Deferred()
         return ds[j]
 
-    env = {"adv": [], "getd": getd}
+    env = {"adv": [], "getd": getd, "exc": ScriptBaseError if c.get("exc") == "B" else ScriptError}
     tasks, iters, obs, newly = [], [], [], []
 
     def observe(d, it):
@@ -188,7 +193,7 @@ def run_impl(c):
                 coop.start()
             else:
                 err = "!BadOp"
-        except Exception as e:  # noqa: BLE001 — the exception class is the observable
+        except (Exception, ScriptBaseError) as e:  # noqa: BLE001 — the exception class is the observable
             err = "!" + type(e).__name__
         if op[0] == "t":
             tok = "t=" + ".".join(str(i) for i in env["adv"][before:]) + err
@@ -466,6 +471,11 @@ def corpus():
     ]
     out = [{"started": True, "ops": ops} for ops in cs]
     out[7]["started"] = False
+    # iterators raising outside the Exception hierarchy (seeded change C11-2): same expected behaviour
+    out += [{"started": True, "ops": ops, "exc": "B"} for ops in (
+        ["n:v,r", "n:v,v,v", "w0", "w1", "t1", "t1", "t1", "t3", "s0", "p0"],
+        ["c:r", "n:v,v", "t1", "t1", "t1"],
+        cs[6])]
     return out
 
 
@@ -569,7 +579,10 @@ def generate(rng, tier):
         n = 30000
     yield from fam
     for i in range(n):
-        yield _history(rng, rng.choice([6, 12, 20, 30, 45]), unmatched=(i % 10 == 0))
+        h = _history(rng, rng.choice([6, 12, 20, 30, 45]), unmatched=(i % 10 == 0))
+        if i % 3 == 1 and any(o[0] in "nc" and "r" in o[2:].split(",") for o in h["ops"]):
+            h["exc"] = "B"
+        yield h
     # long fair-share runs: many ticks of small budget over long scripts with pauses in between
     for i in range(n // 8):
         k = rng.randint(2, 8)
@@ -596,6 +609,15 @@ def generate(rng, tier):
 
 
 def shrink(c):
+    for d in _shrink(c):
+        if c.get("exc"):
+            d["exc"] = c["exc"]
+        yield d
+    if c.get("exc"):
+        yield {"started": c["started"], "ops": c["ops"]}
+
+
+def _shrink(c):
     ops = c["ops"]
     # drop one op (re-numbering task indices when a creation is dropped)
     for i in range(len(ops) - 1, -1, -1):
@@ -640,6 +662,8 @@ def search(rng, tier, disagreeing):
 
 def tag(c, out):
     feats = set()
+    if c.get("exc"):
+        feats.add("exc" + c["exc"])
     body = out.split("|obs=")[0]
     toks = body.split(";") if body else []
     ops = c["ops"]
